@@ -10,10 +10,12 @@ use std::{
 
 pub struct Counting;
 
-static LIVE: AtomicUsize = AtomicUsize::new(0);
+static LIVE: AtomicUsize = AtomicUsize::new(1 << 40);
 static PEAK: AtomicUsize = AtomicUsize::new(0);
 static LARGEST: AtomicUsize = AtomicUsize::new(0);
 static GUARD_ON: AtomicBool = AtomicBool::new(false);
+/// counting costs two contended atomics per call: only checks that use it switch it on
+static COUNTING: AtomicBool = AtomicBool::new(false);
 pub const HUGE: usize = 256 << 20;
 
 thread_local! {
@@ -27,6 +29,7 @@ pub fn set_measured_thread(on: bool) {
 }
 pub fn guard(on: bool) {
   GUARD_ON.store(on, Ordering::SeqCst);
+  COUNTING.store(on, Ordering::SeqCst);
 }
 pub fn live() -> usize {
   LIVE.load(Ordering::Relaxed)
@@ -47,7 +50,10 @@ pub fn largest() -> usize {
 
 #[inline]
 fn on_alloc(size: usize) {
-  let l = LIVE.fetch_add(size, Ordering::Relaxed) + size;
+  if !COUNTING.load(Ordering::Relaxed) {
+    return;
+  }
+  let l = LIVE.fetch_add(size, Ordering::Relaxed).wrapping_add(size);
   if l > PEAK.load(Ordering::Relaxed) {
     PEAK.store(l, Ordering::Relaxed);
   }
@@ -76,13 +82,15 @@ unsafe impl GlobalAlloc for Counting {
     System.alloc_zeroed(layout)
   }
   unsafe fn dealloc(&self, ptr: *mut u8, layout: Layout) {
-    LIVE.fetch_sub(layout.size(), Ordering::Relaxed);
+    if COUNTING.load(Ordering::Relaxed) {
+      LIVE.fetch_sub(layout.size(), Ordering::Relaxed);
+    }
     System.dealloc(ptr, layout)
   }
   unsafe fn realloc(&self, ptr: *mut u8, layout: Layout, new_size: usize) -> *mut u8 {
     if new_size > layout.size() {
       on_alloc(new_size - layout.size());
-    } else {
+    } else if COUNTING.load(Ordering::Relaxed) {
       LIVE.fetch_sub(layout.size() - new_size, Ordering::Relaxed);
     }
     System.realloc(ptr, layout, new_size)
